@@ -20,6 +20,7 @@ class Rig:
         self.over_reads = 0        # characters of `after` the window consumed
         self.ahead = []            # scripted input delivered before the terminal's reply
         self.read_errors = 0       # reads that fail with OSError before the next character is delivered
+        self.fail_reads = set()    # 1-based indices of read calls that fail with OSError
         self.on_read = None        # hook called at every read (used to inject a nested call)
         self.reads = 0
         self.writes = 0
@@ -28,36 +29,58 @@ class Rig:
         self.log = []
         scr = self.screen
 
+        # the output stream is buffered, as a real text stream is: what was written reaches the terminal at the next flush()
+        self.pending = []
+
+        def flush(args=None, kw=None):
+            for d in self.pending:
+                scr.feed(d)
+            del self.pending[:]
+            return None
+        self.flush = flush
+
+        def emit(data):
+            """blessed's own context managers write to the same stream and flush it"""
+            self.pending.append(data)
+            flush()
+
         def write(args, kw):
             (data,) = args
             if any(q.endswith(".__exit__") for q in it.folder.stack):
-                scr.feed(data)
+                self.pending.append(data)
                 return None
             self.writes += 1
             if self.crash_at_write is not None and self.writes == self.crash_at_write:
                 self.crash_at_write = None
                 raise FoldedRaise(ExcName("KeyboardInterrupt"), "arrives at a write to the terminal")
             self.log.append(data)
-            scr.feed(data)
+            self.pending.append(data)
             return None
 
         def read(args, kw):
             self.reads += 1
             if self.on_read is not None:
                 self.on_read(self)
-            if self.read_errors > 0:
-                self.read_errors -= 1
+            if self.read_errors > 0 or self.reads in self.fail_reads:
+                self.read_errors = max(0, self.read_errors - 1)
                 raise FoldedRaise(ExcName("OSError", errno=5, args=(5, "Input/output error"), strerror="Input/output error"), "scripted read failure")
-            if self.ahead:
-                return self.ahead.pop(0)
-            if scr.replies:
-                return scr.replies.pop(0)
-            if self.after:
-                self.over_reads += 1
-                return self.after.pop(0)
-            raise AnalysisError("the window reads from the terminal although no reply is pending (it would block)")
+            want = args[0] if args and isinstance(args[0], int) and args[0] > 0 else 1
+            out = ""
+            while len(out) < want:
+                if self.ahead:
+                    out += self.ahead.pop(0)
+                elif scr.replies:
+                    out += scr.replies.pop(0)
+                elif self.after:
+                    self.over_reads += 1
+                    out += self.after.pop(0)
+                else:
+                    break
+            if not out:
+                raise AnalysisError("the window reads from the terminal although no reply is pending (it would block)")
+            return out
 
-        self.out_stream = Record(write=NativeFunc(write, "out_stream.write"), flush=NativeFunc(lambda a, k: None, "flush"),
+        self.out_stream = Record(write=NativeFunc(write, "out_stream.write"), flush=NativeFunc(flush, "out_stream.flush"),
                                  encoding=encoding, isatty=NativeFunc(lambda a, k: True), fileno=NativeFunc(lambda a, k: 1))
         self.in_stream = Record(read=NativeFunc(read, "in_stream.read"), encoding=encoding, fileno=NativeFunc(lambda a, k: 0),
                                 isatty=NativeFunc(lambda a, k: True))
@@ -67,14 +90,14 @@ class Rig:
             y = kw.get("y", args[1] if len(args) > 1 else None)
 
             def enter():
-                scr.feed("\x1b7")
+                emit("\x1b7")
                 if x is not None and y is not None:
-                    scr.feed(termmodel.move(y, x))
+                    emit(termmodel.move(y, x))
                 elif x is not None:
-                    scr.feed(termmodel.move_x(x))
+                    emit(termmodel.move_x(x))
                 elif y is not None:
-                    scr.feed(termmodel.move(y, scr.c))
-            return NativeCM(enter, lambda: scr.feed("\x1b8"), "location")
+                    emit(termmodel.move(y, scr.c))
+            return NativeCM(enter, lambda: emit("\x1b8"), "location")
 
         def terminal(args, kw):
             fields = dict(termmodel.CAPS)
@@ -84,8 +107,8 @@ class Rig:
                 move_yx=NativeFunc(lambda a, k: termmodel.move(*a), "move_yx"),
                 move_xy=NativeFunc(lambda a, k: termmodel.move(a[1], a[0]), "move_xy"),
                 location=NativeFunc(location, "location"),
-                fullscreen=NativeFunc(lambda a, k: NativeCM(lambda: scr.feed(termmodel.CAPS["enter_fullscreen"]),
-                                                            lambda: scr.feed(termmodel.CAPS["exit_fullscreen"]), "fullscreen")),
+                fullscreen=NativeFunc(lambda a, k: NativeCM(lambda: emit(termmodel.CAPS["enter_fullscreen"]),
+                                                            lambda: emit(termmodel.CAPS["exit_fullscreen"]), "fullscreen")),
                 cbreak=NativeFunc(lambda a, k: NativeCM(None, None, "cbreak")),
                 get_location=NativeFunc(lambda a, k: (scr.r, scr.c)),
             )
